@@ -94,7 +94,7 @@ Kinds == <<
   "extra_semi", "extra_close", "extra_open", "extra_word", "semi_to_comma",
   \* strings
   "open_str", "open_str_last", "str_to_num", "str_empty", "str_long", "str_nul", "str_utf8", "str_backslash",
-  "str_other_quote",
+  "str_other_quote", "laststr_selfref",
   \* keyword
   "trunc_kw", "no_at", "bare_at", "plural_kw", "double_kw", "kw_as_arg", "empty_arg",
   \* numbers
@@ -141,6 +141,10 @@ Mut(k, s) ==
        [] k = "open_str_last" -> IF strL # 0 /\ strL # str1 /\ Len(s[strL]) > 1
                                  THEN ReplaceTok(s, strL, <<DropLastChar(s[strL])>>) ELSE s
        [] k = "str_to_num" -> ReplaceTok(s, str1, <<"42">>)
+       \* the last string becomes a formula that refers to the first one: "@Evolution<function> 'f' '2*f+1';" defines f from itself
+       [] k = "laststr_selfref" -> IF str1 # 0 /\ strL # str1 /\ Len(s[str1]) > 2
+                                   THEN ReplaceTok(s, strL, <<SubSeq(s[str1], 1, 1) \o "2*" \o SubSeq(s[str1], 2, Len(s[str1]) - 1) \o "+1" \o SubSeq(s[str1], 1, 1)>>)
+                                   ELSE s
        [] k = "str_empty" -> IF str1 # 0 THEN ReplaceTok(s, str1, <<Ch(s[str1], 1) \o Ch(s[str1], 1)>>) ELSE s
        [] k = "str_long" -> IF str1 # 0 THEN ReplaceTok(s, str1, <<Ch(s[str1], 1) \o LongWord \o Ch(s[str1], 1)>>) ELSE s
        [] k = "str_nul" -> IF str1 # 0 THEN ReplaceTok(s, str1, <<Ch(s[str1], 1) \o "a%00b" \o Ch(s[str1], 1)>>) ELSE s
